@@ -2039,5 +2039,11 @@ func main() {
 		"through the proxy the observer's own hop may carry Connection: close/keep-alive, Transfer-Encoding: chunked, Host and the transport's Accept-Encoding (C01's subject); Trailer is not combined with chunked messages in the proxy subset because net/http re-announces forwarded trailers itself",
 		"for a request whose Via names this instance only the loop obligations (error, round trip skipped, 400, origin log empty) are checked; its headers go nowhere",
 	}
+	// auxiliary race pass: concurrent messages through one shared stack on the unrewritten tree under -race
+	raceIters := "20"
+	if lib.Tier() == "thorough" {
+		raceIters = "200"
+	}
+	rep.ReportRaces(lib.RacePass("c14", "racebodies", "c14", raceIters))
 	rep.Finish()
 }
